@@ -8,6 +8,9 @@
     get_resource_system_data_from_cache(resource_class, cache_key)              ↦ `Op.systemData`
 
   `__CACHE` is an association list keyed by `Resource(resource_type, name)` = (kind, name).  The
+  oracle `prep` stands for the whole guarded preparation `try: await preparer(key, deepcopy(spec))
+  except RecursionError: PermFail(...)`: `ok r` = an Ok outcome, `failed e` = any non-Ok outcome, whether
+  the preparer returned it or the guard produced it for a spec nested too deeply to copy.  The
   preparer is an oracle `prep kind name spec`; every theorem holds for every oracle.  Each call of the
   preparer gets a serial number (the number of calls before it), which stands for the identity of the
   object it returned: "returns the cached result" means "returns the object with the same serial".
